@@ -18,11 +18,12 @@ import Femio.Driver.C17
 import Femio.Driver.C18
 import Femio.Driver.C19
 import Femio.Driver.C20
+import Femio.Driver.C20S
 /-! `femio_driver`: line-protocol front end of the executable model (imports core-only modules). -/
 open Femio
 
 def handlers : List (List String → Option String) :=
-  [ C01.handle, C02.handle, C03.handle, C04.handle, C05.handle, C05K.handle, C07.handle, C08D.handle, C09.handle, C10.handle, C11.handle, C12.handle, C13.handle, C14.handle, C15D.handle, C16.handle, C17D.handle, C18.handle, C19.handle, C20.handle ]
+  [ C01.handle, C02.handle, C03.handle, C04.handle, C05.handle, C05K.handle, C07.handle, C08D.handle, C09.handle, C10.handle, C11.handle, C12.handle, C13.handle, C14.handle, C15D.handle, C16.handle, C17D.handle, C18.handle, C19.handle, C20.handle, C20S.handle ]
 
 def handleLine (line : String) : String :=
   let toks := Proto.tokens line
